@@ -12,15 +12,22 @@ the same Sem (harness/wrapc_rt.h) and spec != native is a MachineryError in the 
 import json
 
 KIND_SEQ = ["i8", "u8", "i16", "u16", "i32", "u32", "i64", "u64", "long", "ulong", "f32", "f64",
-            "bool", "enum", "cstr", "string", "objPtr", "objRef", "objVal", "constObjRef", "void"]
+            "bool", "enum", "cstr", "string", "objPtr", "objRef", "objVal", "constObjRef", "void",
+            "enumC", "enumLL", "strPtr", "arrI32", "arrF32", "arrObj"]
 FK_SEQ = ["free", "method", "cmethod", "static", "ctor", "getter", "setter",
-          "opIndex", "opCall", "opAsg", "opCast", "opEq"]
+          "opIndex", "opCall", "opAsg", "opCast", "opEq", "opIndexRef"]
 CLS_SEQ = ["-", "K0", "K1", "K2", "KB", "Mix", "K3"]
 CLASSES = CLS_SEQ[1:]
 BASES = {"K0": [], "K1": ["K0"], "K2": ["K0"], "KB": [], "Mix": ["K0", "KB"], "K3": ["K0"]}
 OBJ_KINDS = ("objPtr", "objRef", "objVal", "constObjRef")
-STR_KINDS = ("cstr", "string")
-DATA_KINDS = [k for k in KIND_SEQ[:16] if k != "cstr"] + ["objPtr"]
+STR_KINDS = ("cstr", "string", "strPtr")
+ARR_KINDS = ("arrI32", "arrF32", "arrObj")
+ARR_ELEMS = {"arrI32": ("int", 3), "arrF32": ("float", 2)}
+ENUMC_VALS = {-3: "EnC::c0", 0: "EnC::c1", 100: "EnC::c2"}
+ENUML_VALS = {0: "EnL::l0", 5000000000: "EnL::l1", -5000000000: "EnL::l2"}
+# data members every K0 has; array members exist only in families made for them (see Packer / features)
+DATA_KINDS = [k for k in KIND_SEQ[:16] if k != "cstr"] + ["objPtr", "enumC", "enumLL"]
+ALL_DATA_KINDS = DATA_KINDS + list(ARR_KINDS)
 STMOD = 32768
 TABLE = ["", "a b", "The quick brown fox jumps over the lazy dog. " + "x" * 155, "q\"uo\\te'",
          "\u00e9\u20ac\U0001f600~",          # UTF-8: 2-, 3- and 4-byte sequences
@@ -35,7 +42,7 @@ def c_view(text):
 CTYPE = {"i8": "signed char", "u8": "unsigned char", "i16": "short", "u16": "unsigned short", "i32": "int",
          "u32": "unsigned int", "i64": "long long", "u64": "unsigned long long", "long": "long",
          "ulong": "unsigned long", "f32": "float", "f64": "double", "bool": "bool", "enum": "En",
-         "cstr": "const char *", "void": "void"}
+         "cstr": "const char *", "void": "void", "enumC": "EnC", "enumLL": "EnL", "strPtr": "const std::string *"}
 
 
 def has_this(s):
@@ -67,9 +74,9 @@ def sig_id(s):
     ps = list(s["ps"]) + [None] * 3
     pid = [KIND_SEQ.index(p) + 1 if p else 0 for p in ps[:3]]
     x = FK_SEQ.index(s["fk"]) * 7 + CLS_SEQ.index(s["cls"])
-    x = x * 21 + KIND_SEQ.index(s["ret"])
+    x = x * 28 + KIND_SEQ.index(s["ret"])
     for p in pid:
-        x = x * 21 + p
+        x = x * 28 + p
     return x * 4 + s["nd"]
 
 
@@ -77,19 +84,43 @@ def call_type(k):
     return "obj" if k in ("objRef", "objVal", "constObjRef") else k
 
 
+def decl_np(s):
+    """CppLibCalls!DeclNP: int &operator [](K) carries the two parameters of its item-assignment wrapper"""
+    return 1 if s["fk"] == "opIndexRef" else len(s["ps"])
+
+
 def call_sigs(s):
-    n = len(s["ps"])
+    n = decl_np(s)
     return set(tuple(call_type(k) for k in s["ps"][:n - k]) for k in range(s["nd"] + 1))
 
 
 def cpp_name_group(s):
     """key of the C++ name a signature is declared under, or None when the name is unique to the signature"""
     fk = s["fk"]
-    if fk in ("ctor", "opIndex", "opCall", "opAsg", "opEq"):
+    if fk in ("opIndex", "opIndexRef"):
+        return (s["cls"], "index")
+    if fk == "opAsg":
+        return (s["cls"], "opAsg", ASG_TOKEN[s["ret"]])
+    if fk in ("ctor", "opCall", "opEq"):
         return (s["cls"], fk)
     if fk == "opCast":
         return (s["cls"], "opCast", s["ret"])
     return None
+
+
+ASG_TOKEN = {"objRef": "+=", "i32": "-=", "objVal": "*="}
+
+
+def lib_features(lib):
+    """constructs whose wrappers are known not to compile in some option set are rendered into batches of their
+    own (a predicate over the library), so that they cannot take the rest of the replay down with them"""
+    f = set()
+    for s in lib:
+        if s["fk"] == "setter" and s["ps"][0] in ("arrI32", "arrF32"):
+            f.add("arr")
+        if s["fk"] == "getter" and s["ret"] == "arrObj":
+            f.add("arrobj")
+    return frozenset(f)
 
 
 def this_is_cand(s):
@@ -106,13 +137,17 @@ def defval(kind, i):
     return {"i8": -2 - i, "u8": 200 + i, "i16": -300 - i, "u16": 40000 + i, "i32": -70000 - i, "u32": -5 - i,
             "i64": [-2, i], "long": [-2, i], "u64": [-3, 7 + i], "ulong": [-3, 7 + i], "f32": 12 + i,
             "f64": 16777217 + i, "bool": i % 2, "enum": 5, "cstr": {"t": 1, "n": -1}, "string": {"t": 1, "n": -1},
-            "objPtr": 0}[kind]
+            "objPtr": 0, "enumC": 100, "enumLL": [1, 705032704]}[kind]
 
 
 def val(kind, v):
     """spec value (32-bit patterns, pairs, k, [t,n], object id) -> canonical concrete value"""
-    if kind in ("i8", "u8", "i16", "u16", "i32", "bool", "enum", "f32", "f64"):
+    if kind in ("i8", "u8", "i16", "u16", "i32", "bool", "enum", "f32", "f64", "enumC", "arrObj"):
         return v
+    if kind in ("arrI32", "arrF32"):
+        return list(v)
+    if kind == "enumLL":
+        return val("i64", v)
     if kind == "u32":
         return v & 0xffffffff
     if kind in ("i64", "long", "u64", "ulong"):
@@ -153,6 +188,10 @@ def cpp_literal(kind, v):
         return "true" if v else "false"
     if kind == "enum":
         return {0: "e0", 5: "e1", 70000: "e2"}[v]
+    if kind == "enumC":
+        return ENUMC_VALS[v]
+    if kind == "enumLL":
+        return ENUML_VALS[v]
     if kind in STR_KINDS:
         return json.dumps(v)
     if kind == "objPtr":
@@ -200,8 +239,10 @@ def ptype(kind, pos, fam, sid=0):
 
 def rtype(fn):
     s = fn.sig
-    if s["fk"] == "opAsg":
+    if s["fk"] == "opAsg" and s["ret"] == "objRef":
         return fn.cxxcls + " &"
+    if s["fk"] == "opIndexRef":
+        return "int &"
     k = s["ret"]
     if k == "string":
         # by value (ParameterRemapBasicStringToString) or by const reference (...RefToString)
@@ -227,7 +268,7 @@ def params_text(fn, with_defaults):
     s = fn.sig
     n = len(s["ps"])
     out = []
-    for i, k in enumerate(s["ps"]):
+    for i, k in enumerate(s["ps"][:decl_np(s)]):
         t = ptype(k, i + 1, fn.fam, fn.sid)
         d = ""
         if with_defaults and i >= n - s["nd"]:
@@ -258,7 +299,8 @@ def declaration(fn):
 ARG_STMT = {"i8": "c.s(%s);", "i16": "c.s(%s);", "i32": "c.s(%s);", "u8": "c.u(%s);", "u16": "c.u(%s);", "u32": "c.u(%s);",
             "i64": "c.s64(%s);", "long": "c.s64(%s);", "u64": "c.u64(%s);", "ulong": "c.u64(%s);",
             "f32": "c.fl(%s);", "f64": "c.fl(%s);", "bool": "c.b(%s);", "enum": "c.u((unsigned int)%s);",
-            "cstr": "c.str(%s);", "string": "c.str(%s);"}
+            "cstr": "c.str(%s);", "string": "c.str(%s);", "strPtr": "c.str(*%s);",
+            "enumC": "c.s((int)%s);", "enumLL": "c.s64((long long)%s);"}
 
 
 K0PART = "(st + 7 * (vf_tag() + 1)) % 32768"
@@ -276,7 +318,7 @@ def body(fn):
     L = []
     ts = this_state_expr(s["cls"]) if has_this(s) else "0"
     L.append("vfrt::Call c(%d, %dL, %s);" % (fn.gid, fn.sid, ts))
-    for i, k in enumerate(s["ps"]):
+    for i, k in enumerate(s["ps"][:decl_np(s)]):
         a = pname(fn, i)
         if k == "objPtr":
             L.append("c.obj(%s == 0, %s ? %s->st : 0, %s ? %s->vf_tag() : 0);" % (a, a, a, a, a))
@@ -290,7 +332,7 @@ def body(fn):
             L.append("st = (int)(m % 32768); vf_settag((m / 7) % 1000);")
         if has_kb(s["cls"]):
             L.append("bst = (int)((m / 32768) % 32768);")
-    elif has_this(s) and not const_this(s):
+    elif has_this(s) and not const_this(s) and fk != "opIndexRef":
         if s["cls"] == "KB":
             L.append("bst = (int)((bst + c.weight()) % 32768);")
         else:
@@ -318,10 +360,17 @@ def body(fn):
         elif k == "objVal":
             # the callee's own copy: modifying it must not show in the caller's object
             L.append("%s.st = (%s.st + 5) %% 32768; %s.vf_settag((%s.vf_tag() + 2) %% 1000);" % (a, a, a, a))
-    if fk == "ctor" or r == "void":
+    if fk == "opIndexRef":
+        root = "KB_%d" % fn.fam if s["cls"] == "KB" else k0
+        L.append("return %s::vf_items[c.lasth %% 4];" % root)
+    elif fk == "ctor" or r == "void":
         pass
-    elif fk == "opAsg":
+    elif fk == "opAsg" and r == "objRef":
         L.append("return *this;")
+    elif r == "enumC":
+        L.append("return (EnC)vfrt::enc_enumc(m);")
+    elif r == "enumLL":
+        L.append("return (EnL)vfrt::enc_enuml(m);")
     elif r == "enum":
         L.append("return (En)vfrt::enc_enum(m);")
     elif r == "cstr":
@@ -363,7 +412,13 @@ def definition(fn):
     return "%s {\n  %s\n}\n" % (head, "\n  ".join(body(fn)))
 
 
-DATA_INIT = {"bool": "true", "enum": "e1", "string": "\"a b\"", "objPtr": "nullptr", "f32": "1.5f", "f64": "1.5"}
+DATA_INIT = {"bool": "true", "enum": "e1", "string": "\"a b\"", "objPtr": "nullptr", "f32": "1.5f", "f64": "1.5",
+             "enumC": "EnC::c1", "enumLL": "EnL::l0"}
+ORDER = ["KB", "K0", "K1", "K2", "Mix", "K3"]      # KB first: K0 may hold an array of KB objects
+
+
+def data_kinds(features):
+    return DATA_KINDS + (["arrI32", "arrF32"] if "arr" in features else []) + (["arrObj"] if "arrobj" in features else [])
 
 
 def base_ctor_sig(c):
@@ -377,7 +432,7 @@ class Batch:
         self.index = index
         self.fams = []        # family numbers
         self.fns = []         # Fn
-        self.behaviours = []  # (bid, record, libno)
+        self.features = frozenset()   # wraplib.lib_features of every library in this batch
 
     # -- header ---------------------------------------------------------------------------
     def header(self, promiscuous=False):
@@ -386,14 +441,19 @@ class Batch:
              "#ifdef CPPPARSER", "#define PUBLISHED __published", "#define BEGIN_PUBLISH __begin_publish",
              "#define END_PUBLISH __end_publish", "#else", "#define PUBLISHED public", "#define BEGIN_PUBLISH",
              "#define END_PUBLISH", "namespace vfrt { struct Raw; }", "#endif", "",
-             "enum En { e0, e1 = 5, e2 = 70000 };", ""]
+             "" if promiscuous else "BEGIN_PUBLISH",
+             "enum En { e0, e1 = 5, e2 = 70000 };",
+             "enum class EnC : char { c0 = -3, c1 = 0, c2 = 100 };",
+             "enum class EnL : long long { l0 = 0, l1 = 5000000000LL, l2 = -5000000000LL };",
+             "" if promiscuous else "END_PUBLISH", ""]
         for f in self.fams:
             byc = {c: [fn for fn in self.fns if fn.fam == f and fn.cls == c] for c in CLS_SEQ}
             heads = {"K0": "class K0_%d" % f, "K1": "class K1_%d : public K0_%d" % (f, f),
                      "K2": "class K2_%d : public K0_%d" % (f, f), "KB": "class KB_%d" % f,
                      "Mix": "class Mix_%d : public K0_%d, public KB_%d" % (f, f, f),
                      "K3": "class K3_%d : virtual public K0_%d" % (f, f)}
-            for c in CLASSES:
+            L.append("class K0_%d;" % f)
+            for c in ORDER:
                 L.append(heads[c] + " {")
                 L.append(pub + ":")
                 for fn in byc[c]:
@@ -404,8 +464,17 @@ class Batch:
                     L.append("  int st;")
                     for k in DATA_KINDS:
                         L.append("  %s%sd_%s;" % (ptype(k, 0, f), "" if k == "objPtr" else " ", k))
+                    if "arr" in self.features:
+                        L.append("  int d_arrI32[3];")
+                        L.append("  float d_arrF32[2];")
+                        L.append("  int vf_celli(int i) const;")        # Read: element i of d_arrI32 / d_arrF32
+                        L.append("  float vf_cellf(int i) const;")
+                    if "arrobj" in self.features:
+                        L.append("  KB_%d d_arrObj[2];" % f)
                 if c == "KB":
                     L.append("  int bst;")
+                if c in ("K0", "KB"):
+                    L.append("  int vf_item(int i) const;")             # Read: what  int &operator [](K)  refers to
                 if c in ("K0", "KB"):
                     L.append("public:")
                     L.append("  virtual ~%s_%d();" % (c, f))
@@ -419,6 +488,9 @@ class Batch:
                         L.append("  std::string vf_tagtext;")
                     else:
                         L.append("  KB_%d(const vfrt::Raw &, int s);" % f)
+                        if "arrobj" in self.features:
+                            L.append("  KB_%d();" % f)          # elements of K0's object array
+                    L.append("  int vf_items[4];")
                     L.append("  void vf_init();")
                     L.append("#endif")
                 L.append("};")
@@ -442,13 +514,21 @@ class Batch:
             L.append("int K0_%d::vf_tag() const { return (int)vfrt::tagnum(vf_tagtext); }" % f)
             L.append("void K0_%d::vf_settag(long tg) { vf_tagtext = vfrt::mktag(tg); }" % f)
             L.append("K0_%d::~K0_%d() {}" % (f, f))
-            init = ["st = 0;", "vf_settag(0);"]
+            init = ["st = 0;", "vf_settag(0);", "for (int i = 0; i < 4; ++i) vf_items[i] = 0;"]
             for k in DATA_KINDS:
                 init.append("d_%s = %s;" % (k, DATA_INIT.get(k, "1")))
+            if "arr" in self.features:
+                init.append("d_arrI32[0] = 1; d_arrI32[1] = 2; d_arrI32[2] = 3; d_arrF32[0] = 1.5f; d_arrF32[1] = 2.5f;")
+                L.append("int K0_%d::vf_celli(int i) const { return d_arrI32[i]; }" % f)
+                L.append("float K0_%d::vf_cellf(int i) const { return d_arrF32[i]; }" % f)
             L.append("void K0_%d::vf_init() { %s }" % (f, " ".join(init)))
-            L.append("KB_%d::KB_%d(const vfrt::Raw &, int s) { bst = s; }" % (f, f))
+            L.append("int K0_%d::vf_item(int i) const { return vf_items[i & 3]; }" % f)
+            L.append("KB_%d::KB_%d(const vfrt::Raw &, int s) { vf_init(); bst = s; }" % (f, f))
+            if "arrobj" in self.features:
+                L.append("KB_%d::KB_%d() { vf_init(); bst = 7; }" % (f, f))
             L.append("KB_%d::~KB_%d() {}" % (f, f))
-            L.append("void KB_%d::vf_init() { bst = 0; }" % f)
+            L.append("void KB_%d::vf_init() { bst = 0; for (int i = 0; i < 4; ++i) vf_items[i] = 0; }" % f)
+            L.append("int KB_%d::vf_item(int i) const { return vf_items[i & 3]; }" % f)
             for c in CLASSES:
                 L.append('extern "C" void vf_destroy_%s_%d(void *p) { delete (%s_%d *)p; }' % (c, f, c, f))
             L.append("")
@@ -478,9 +558,17 @@ class Batch:
             L.append("static void copy_%d(X &x, Slot &s) { Slot n; n.cls = s.cls; n.live = true; n.p = 0; switch (s.cls) { %s } x.slots.push_back(n); }" % (f, cases))
             # data members: direct access
             gl, sl = [], []
-            for i, k in enumerate(DATA_KINDS):
-                gl.append("case %d: %s break;" % (i, native_ret(k, "a->d_%s" % k, f, "x")))
-                sl.append("case %d: a->d_%s = %s; break;" % (i, k, native_arg(k, 2, f)))
+            for k in data_kinds(self.features):
+                i = ALL_DATA_KINDS.index(k)
+                if k == "arrObj":
+                    gl.append("case %d: x.ret_i(a->d_arrObj[0].bst); break;" % i)
+                elif k == "arrI32":
+                    sl.append("case %d: { int v[3] = {(int)x.I(1), (int)x.I(2), (int)x.I(3)}; std::copy(v, v + 3, a->d_arrI32); } break;" % i)
+                elif k == "arrF32":
+                    sl.append("case %d: { float v[2] = {(float)x.F(1), (float)x.F(2)}; std::copy(v, v + 2, a->d_arrF32); } break;" % i)
+                else:
+                    gl.append("case %d: %s break;" % (i, native_ret(k, "a->d_%s" % k, f, "x")))
+                    sl.append("case %d: a->d_%s = %s; break;" % (i, k, native_arg(k, 2, f)))
             L.append("static void getd_%d(X &x, Slot &s, int kind) { K0_%d *a = k0_%d(s); switch (kind) { %s } }" % (f, f, f, " ".join(gl)))
             L.append("static void setd_%d(X &x, Slot &s, int kind) { K0_%d *a = k0_%d(s); switch (kind) { %s } x.ret_void(); }" % (f, f, f, " ".join(sl)))
             L.append("static void up_%d(X &x, Slot &s, int base) { if (base == 4) x.ret_i(kb_%d(s)->bst); else x.ret_i(k0_%d(s)->st); }" % (f, f, f))
@@ -515,6 +603,12 @@ def native_arg(k, i, fam):
         return "(x.I(%d) != 0)" % j
     if k == "enum":
         return "(En)x.U(%d)" % j
+    if k == "enumC":
+        return "(EnC)x.I(%d)" % j
+    if k == "enumLL":
+        return "(EnL)x.I(%d)" % j
+    if k == "strPtr":
+        return "&x.S(%d)" % j
     if k == "cstr":
         return "x.S(%d).c_str()" % j
     if k == "string":
@@ -525,7 +619,7 @@ def native_arg(k, i, fam):
 
 
 def native_ret(k, expr, fam, x):
-    if k in ("i8", "i16", "i32", "i64", "long"):
+    if k in ("i8", "i16", "i32", "i64", "long", "enumC", "enumLL"):
         return "%s.ret_i((long long)(%s));" % (x, expr)
     if k in ("u8", "u16", "u32", "u64", "ulong", "enum"):
         return "%s.ret_u((unsigned long long)(%s));" % (x, expr)
@@ -570,7 +664,10 @@ def native_callsite(fn, k):
         elif fk == "opCall":
             call = "(*self)(%s)" % args
         elif fk == "opAsg":
-            call = "((*self) += %s)" % args
+            call = "((*self) %s %s)" % (ASG_TOKEN[s["ret"]], args)
+        elif fk == "opIndexRef":
+            a = [native_arg(s["ps"][i], i + 1, f) for i in range(2)]
+            call = "(*self)[%s] = %s" % (a[0], a[1])
         elif fk == "opEq":
             call = "((*self) == %s)" % args
         elif fk == "opCast":
@@ -581,7 +678,7 @@ def native_callsite(fn, k):
         self_ = ""
         call = "%s(%s)" % (("::" + fn.cname) if fn.cls == "-" else fn.scoped, args)
     r = s["ret"]
-    if fk == "opAsg":
+    if fk == "opAsg" and r == "objRef":
         tail = "x.ret_i(find_%d(x, (K0_%d *)&%s));" % (f, f, call)
     elif r == "void":
         tail = "%s; x.ret_void();" % call
@@ -619,8 +716,9 @@ class Packer:
             return self.libs[key]
         self.libno += 1
         sigs = {sig_key(s): s for s in lib}
+        feats = lib_features(lib)
         for fi, fam in enumerate(self.fams):
-            if len(fam["sigs"]) + len(sigs) > self.fam_cap:
+            if fam["features"] != feats or len(fam["sigs"]) + len(sigs) > self.fam_cap:
                 continue
             others = [s for k, s in fam["sigs"].items() if k not in sigs]
             if all(compatible(a, b) for a in sigs.values() for b in others):
@@ -628,7 +726,7 @@ class Packer:
         else:
             fi = len(self.fams)
             base = {sig_key(base_ctor_sig(c)): base_ctor_sig(c) for c in CLASSES}
-            self.fams.append(dict(sigs=dict(base), fns={}, libs=set()))
+            self.fams.append(dict(sigs=dict(base), fns={}, libs=set(), features=feats))
             fam = self.fams[fi]
             for k, s in base.items():
                 self.gid += 1
@@ -641,12 +739,12 @@ class Packer:
                 cname = "%s_%d" % (s["cls"], fi)
             elif fk in ("getter", "setter"):
                 cname = "d_" + (s["ret"] if fk == "getter" else s["ps"][0])
-            elif fk == "opIndex":
+            elif fk in ("opIndex", "opIndexRef"):
                 cname = "operator []"
             elif fk == "opCall":
                 cname = "operator ()"
             elif fk == "opAsg":
-                cname = "operator +="
+                cname = "operator " + ASG_TOKEN[s["ret"]]
             elif fk == "opEq":
                 cname = "operator =="
             elif fk == "opCast":
@@ -667,14 +765,24 @@ class Packer:
         return self.libs[key]
 
     def batches(self):
-        # families are dealt to batches so that the batches have about the same number of functions
+        # families without special features are dealt to nb batches of about the same number of functions;
+        # every other feature set gets a batch of its own
         bs = [Batch(i) for i in range(self.nb)]
         order = sorted(range(len(self.fams)), key=lambda f: -len(self.fams[f]["fns"]))
+        special = {}
         for f in order:
-            b = min(bs, key=lambda x: len(x.fns))
+            feats = self.fams[f]["features"]
+            if feats:
+                if feats not in special:
+                    special[feats] = Batch(self.nb + len(special))
+                    special[feats].features = feats
+                b = special[feats]
+            else:
+                b = min(bs, key=lambda x: len(x.fns))
             b.fams.append(f)
             b.fns.extend(sorted(self.fams[f]["fns"].values(), key=lambda fn: fn.gid))
-        for b in bs:
+        bs += [special[k] for k in sorted(special, key=sorted)]
+        for i, b in enumerate(x for x in bs if x.fams):
             b.fams.sort()
         return [b for b in bs if b.fams]
 
@@ -702,10 +810,13 @@ def resolve(rec, bid, fam, fnmap):
             else:
                 d["this"] = st["this"]
                 r = s["ret"]
-                d["exp_ret"] = st["this"] if s["fk"] == "opAsg" else st["ret"] if r in OBJ_KINDS else val(r, st["ret"])
+                d["exp_ret"] = st["this"] if s["fk"] == "opAsg" and r == "objRef" else st["ret"] if r in OBJ_KINDS else val(r, st["ret"])
                 if s["fk"] == "setter":
                     d["rb"] = val(s["ps"][0], st["rb"])
                     d["data_kind"] = s["ps"][0]
+                if s["fk"] == "opIndexRef":
+                    d["rb"] = st["rb"]
+                    d["item"] = st["item"]
                 if s["fk"] == "getter":
                     d["data_kind"] = s["ret"]
             steps.append((d, exp_post))
@@ -735,12 +846,14 @@ def native_script(behaviours):
                 for k, a in zip(st["kinds"], st["args"]):
                     if k in STR_KINDS:
                         toks.append(str(TABLE.index(a)))
+                    elif k in ("arrI32", "arrF32"):
+                        toks.append(" ".join(str(x) for x in a))
                     else:
                         toks.append(str(a))
                 if st["fk"] == "getter":
-                    L.append("G %d %d" % (st["this"], DATA_KINDS.index(st["data_kind"])))
+                    L.append("G %d %d" % (st["this"], ALL_DATA_KINDS.index(st["data_kind"])))
                 elif st["fk"] == "setter":
-                    L.append("S %d %d %s" % (st["this"], DATA_KINDS.index(st["data_kind"]), toks[0]))
+                    L.append("S %d %d %s" % (st["this"], ALL_DATA_KINDS.index(st["data_kind"]), toks[0]))
                 else:
                     L.append("C %d %d %d %s" % (st.get("this", 0), st["gid"], st["k"], " ".join(toks)))
             elif op == "copy":
